@@ -24,6 +24,8 @@ from harness.wire import RecordingWriter
 
 PROP = "C14"
 LEVEL = "exploration"
+TECHNIQUE = 'conservation / exactly-once checker over per-writer byte streams (files read back from disk) against a reference recording writer'
+LEVEL_TEXT = 'Held on random add/remove/write/flush/teardown histories over seven writer kinds.'
 RULE = ("histories (25-45 events) of add_writer (incl. duplicates and re-adds) / remove_writer / emitting "
         "calls (moves, comments with non-ASCII text, tool and mode commands) / flush / teardown over mixes "
         "of path-based FileWriter, BytesIO, StringIO, real binary and utf-8 text file objects, ConsoleWriter "
